@@ -26,10 +26,16 @@ func verifQuietLog() *logrus.Logger {
 
 var verifGroups = []string{"g0", "g1", "g2", "g3"}
 
+// verifGroupIDs optionally overrides the outbound ids of verifGroups.
+var verifGroupIDs []uint8
+
 func verifOutboundTable() (name2id map[string]uint8, id2name map[uint8]string) {
 	name2id = map[string]uint8{"direct": uint8(consts.OutboundDirect), "block": uint8(consts.OutboundBlock)}
 	for i, g := range verifGroups {
 		name2id[g] = uint8(consts.OutboundUserDefinedMin) + uint8(i)
+		if i < len(verifGroupIDs) {
+			name2id[g] = verifGroupIDs[i]
+		}
 	}
 	id2name = map[uint8]string{}
 	for k, v := range name2id {
